@@ -926,6 +926,46 @@ func (b *BaseStore) LoadFromSnapshot(ctx context.Context) error {
 		return fmt.Errorf("unable to load log: %w", err)
 	}
 
+	// the log is fetched again from the recorded heads, through next and refs
+	// links: as in Load, only the entries of this log that Join accepts are
+	// handed to it. An entry written for another log would be merged as a head
+	// without being verified, and one refused entry (the replicator had left it
+	// out when it arrived) would make Join refuse the whole snapshot
+	oplog := b.OpLog()
+
+	var own []ipfslog.Entry
+	for _, e := range log.GetEntries().Slice() {
+		if e.GetLogID() != oplog.GetID() {
+			continue
+		}
+
+		if provider := b.Identity().Provider; provider != nil {
+			if err := b.AccessController().CanAppend(e, provider, &CanAppendContext{log: oplog}); err != nil {
+				continue
+			}
+
+			if err := e.Verify(provider, b.IO()); err != nil {
+				continue
+			}
+		}
+
+		own = append(own, e)
+	}
+
+	if len(own) != log.GetEntries().Len() {
+		log, err = ipfslog.NewLog(b.IPFS(), b.Identity(), &ipfslog.LogOptions{
+			ID:               oplog.GetID(),
+			AccessController: b.AccessController(),
+			SortFn:           b.SortFn(),
+			IO:               b.options.IO,
+			Entries:          entry.NewOrderedMapFromEntries(own),
+		})
+
+		if err != nil {
+			return fmt.Errorf("unable to create log from entries: %w", err)
+		}
+	}
+
 	// only what the recorded heads lead to is merged: the maximum counts those
 	// entries, not every record of the file (a snapshot written while the log
 	// grew holds records its heads do not cover)
@@ -938,7 +978,7 @@ func (b *BaseStore) LoadFromSnapshot(ctx context.Context) error {
 
 	b.recalculateReplicationMax(maxClock)
 
-	if _, err = b.OpLog().Join(log, -1); err != nil {
+	if _, err = oplog.Join(log, -1); err != nil {
 		return fmt.Errorf("unable to join log: %w", err)
 	}
 
